@@ -468,7 +468,7 @@ func (x *Exec) safeNonNil(obj string, reach string, pos token.Pos, what string) 
 		return
 	}
 	if x.safe {
-		x.addObl(&Obligation{Kind: "safe", Label: what, Props: []string{"C12"}, Pos: x.pos(pos), Reach: reach, Goal: Not(Eq(obj, "0")),
+		x.addObl(&Obligation{Kind: "safe", Label: what, Props: x.safeProps(), Pos: x.pos(pos), Reach: reach, Goal: Not(Eq(obj, "0")),
 			Name: fmt.Sprintf("%s#safe.%s@L%d", shortFn(x.root), what, x.line(pos))})
 	}
 	x.sc.Assume(reach, Not(Eq(obj, "0")))
@@ -479,7 +479,7 @@ func (x *Exec) safeCond(cond string, reach string, pos token.Pos, what string) {
 		return
 	}
 	if x.safe {
-		x.addObl(&Obligation{Kind: "safe", Label: what, Props: []string{"C12"}, Pos: x.pos(pos), Reach: reach, Goal: cond,
+		x.addObl(&Obligation{Kind: "safe", Label: what, Props: x.safeProps(), Pos: x.pos(pos), Reach: reach, Goal: cond,
 			Name: fmt.Sprintf("%s#safe.%s@L%d", shortFn(x.root), what, x.line(pos))})
 	}
 	x.sc.Assume(reach, cond)
@@ -1176,7 +1176,7 @@ func (f *frame) execBlock(b *ssa.BasicBlock, st *State, reach string) error {
 			return nil
 		case *ssa.Panic:
 			if x.safe {
-				x.addObl(&Obligation{Kind: "safe", Label: "explicit-panic", Props: []string{"C12"}, Pos: x.pos(in.Pos()), Reach: reach, Goal: "false",
+				x.addObl(&Obligation{Kind: "safe", Label: "explicit-panic", Props: x.safeProps(), Pos: x.pos(in.Pos()), Reach: reach, Goal: "false",
 					Name: fmt.Sprintf("%s#safe.explicit-panic@L%d", shortFn(x.root), x.line(in.Pos()))})
 			}
 			return nil
@@ -1187,4 +1187,13 @@ func (f *frame) execBlock(b *ssa.BasicBlock, st *State, reach string) error {
 		}
 	}
 	return nil
+}
+
+// safeProps names the properties a no-panic obligation counts for: C12 for the request handlers, and for a
+// function swept outside C12 (the v3 reconciler steps) the properties its contract lists.
+func (x *Exec) safeProps() []string {
+	if x.rootC == nil || len(x.rootC.Props) == 0 || hasProp(x.rootC.Props, "C12") {
+		return []string{"C12"}
+	}
+	return x.rootC.Props
 }
